@@ -37,9 +37,9 @@ def model_runs(tier):
         runs.append(("live-N3", dict(N=3, MCS="{1, 2}", RES=ALLRES, PRS="{0}", SEQS="{TRUE, FALSE}",
                                      FAILS=1, INACT=1, PREMAX=0), [], ["P09"], None, 8))
         runs.append(("safety-N4", dict(N=4, MCS="{1, 2}", RES=ALLRES, PRS="{0}", SEQS="{TRUE, FALSE}",
-                                       FAILS=1, INACT=0, PREMAX=0), inv_all, ["P03once", "P14after"], None, 16))
+                                       FAILS=1, INACT=0, PREMAX=0), inv_all, ["P03once", "P14after"], None, 8))
         runs.append(("safety-N4-mc3", dict(N=4, MCS="{3}", RES='{"thread", "async"}', PRS="{0}", SEQS="{TRUE, FALSE}",
-                                           FAILS=1, INACT=1, PREMAX=0), inv_all, ["P03once", "P14after"], None, 16))
+                                           FAILS=1, INACT=1, PREMAX=0), inv_all, ["P03once", "P14after"], None, 8))
     runs.append(("known-C08", dict(N=3, MCS="{2}", RES='{"thread", "async"}', PRS="{0}", SEQS="{FALSE}",
                                    FAILS=0, INACT=0, PREMAX=0), ["P08known"], [], "P08known", 2))
     return runs
@@ -231,12 +231,13 @@ def run(tier, seed, log=common.say):
     t0 = time.time()
     res = {"engine": "E1", "tier": tier, "seed": seed}
     # (M) model checking in the background while the real code is explored
-    pool = cf.ThreadPoolExecutor(4)
+    # model runs share the machine with the exploration: few at a time in the thorough tier (their worker counts are large)
+    pool = cf.ThreadPoolExecutor(4 if tier == "quick" else 1)
     mfuts = [pool.submit(run_model, r) for r in model_runs(tier)]
     # (T) exploration of the real scheduler
     cfgs, opts = plan(tier, seed)
     te = time.time()
-    results = sd.run_configs(cfgs, opts, seed=seed, procs=10 if tier == "quick" else 12)
+    results = sd.run_configs(cfgs, opts, seed=seed, procs=10 if tier == "quick" else 8)
     res["explore"] = {
         "configs": len(cfgs), "runs": sum(r["runs"] for r in results),
         "complete_configs": sum(1 for r in results if r["complete"]),
